@@ -138,14 +138,14 @@ Qed.
 (* ---- show_func: which functions are shown ----------------------------------------- *)
 Definition shown (strip : bool) (e : entry) : bool := negb (strip && (total_hits (snd e) =? 0)).
 
-Lemma show_func_key F E strip cl k tm b : show_func F E strip cl k tm = Some b -> b_key b = k.
+Lemma show_func_key F E strip k tm b : show_func F E strip k tm = Some b -> b_key b = k.
 Proof.
   destruct k as [[fn start] name]. unfold show_func.
   destruct (strip && (total_hits tm =? 0)); [discriminate|]. intros H. inversion H. reflexivity.
 Qed.
 
-Lemma show_func_some F E strip cl k tm :
-  (exists b, show_func F E strip cl k tm = Some b) <-> shown strip (k, tm) = true.
+Lemma show_func_some F E strip k tm :
+  (exists b, show_func F E strip k tm = Some b) <-> shown strip (k, tm) = true.
 Proof.
   destruct k as [[fn start] name]. unfold show_func, shown. cbn [snd].
   destruct (strip && (total_hits tm =? 0)); cbn [negb]; split.
@@ -155,41 +155,31 @@ Proof.
   - intros _. eexists. reflexivity.
 Qed.
 
-Lemma show_func_none F E strip cl k tm :
-  show_func F E strip cl k tm = None <-> shown strip (k, tm) = false.
+Lemma show_func_none F E strip k tm :
+  show_func F E strip k tm = None <-> shown strip (k, tm) = false.
 Proof.
   destruct k as [[fn start] name]. unfold show_func, shown. cbn [snd].
   destruct (strip && (total_hits tm =? 0)); cbn [negb]; split; congruence.
 Qed.
 
-Lemma show_blocks_keys F E strip : forall l cl,
-  map b_key (show_blocks F E strip cl l) = map fst (filter (shown strip) l).
-Proof.
-  induction l as [|[k tm] t IH]; intros cl; cbn [show_blocks filter map fst snd]; [reflexivity|].
-  destruct (show_func F E strip cl k tm) as [b|] eqn:Ef.
-  - rewrite (proj1 (show_func_some F E strip cl k tm) (ex_intro _ b Ef)).
-    cbn [map fst]. rewrite (show_func_key _ _ _ _ _ _ _ Ef), IH. reflexivity.
-  - rewrite (proj1 (show_func_none F E strip cl k tm) Ef). apply IH.
-Qed.
-
-Lemma show_blocks_in F E strip b : forall l cl,
-  In b (show_blocks F E strip cl l) ->
-  exists e cl', In e l /\ show_func F E strip cl' (fst e) (snd e) = Some b.
-Proof.
-  induction l as [|e t IH]; intros cl; cbn [show_blocks]; [intros []|].
-  destruct (show_func F E strip cl (fst e) (snd e)) as [b0|] eqn:Ef.
-  - intros [<-|Hin].
-    + exists e, cl. split; [left; reflexivity|exact Ef].
-    + destruct (IH _ Hin) as [e' [cl' [Hin' Hf]]]. exists e', cl'. split; [right; exact Hin'|exact Hf].
-  - intros Hin. destruct (IH _ Hin) as [e' [cl' [Hin' Hf]]]. exists e', cl'. split; [right; exact Hin'|exact Hf].
-Qed.
+(* the details loop is a pure per-function map: a block does not depend on what was reported
+   before it *)
+Lemma blocks_are_per_function F E o st :
+  o_details o = true ->
+  rp_blocks (show_text F E o st)
+  = filter_map (fun e => show_func F E (o_stripzeros o) (fst e) (snd e)) (stats_order (o_sort o) st).
+Proof. intros Hd. unfold show_text. cbn [rp_blocks]. rewrite Hd. reflexivity. Qed.
 
 Lemma blocks_keys F E o st :
   o_details o = true ->
   map b_key (rp_blocks (show_text F E o st))
   = map fst (filter (shown (o_stripzeros o)) (stats_order (o_sort o) st)).
 Proof.
-  intros Hd. unfold show_text. cbn [rp_blocks]. rewrite Hd. apply show_blocks_keys.
+  intros Hd. rewrite blocks_are_per_function by exact Hd.
+  apply filter_map_map_filter.
+  - intros [k tm] b H. cbn [fst snd] in H. split; [exact (show_func_key _ _ _ _ _ _ H)|].
+    apply (proj1 (show_func_some F E _ k tm)). exists b. exact H.
+  - intros [k tm] H. cbn [fst snd] in H. apply (proj1 (show_func_none F E _ k tm)). exact H.
 Qed.
 
 Lemma NoDup_keys_in_unique (st : stats) k tm tm' :
@@ -213,8 +203,7 @@ Theorem every_function_once F E o (st : stats) :
   /\ (forall k tm, In (k, tm) st ->
         (In k (map b_key blocks) <-> (o_stripzeros o = false \/ total_hits tm <> 0)))
   /\ (forall b, In b blocks ->
-        exists tm cleared, In (b_key b, tm) st
-                           /\ show_func F E (o_stripzeros o) cleared (b_key b) tm = Some b).
+        exists tm, In (b_key b, tm) st /\ show_func F E (o_stripzeros o) (b_key b) tm = Some b).
 Proof.
   intros Hnd Hd blocks.
   assert (Hperm := stats_order_perm (o_sort o) st).
@@ -235,9 +224,9 @@ Proof.
       * unfold shown. cbn [snd]. destruct Hs as [->|Hs]; [reflexivity|].
         destruct (o_stripzeros o); [cbn; lia|reflexivity].
   - intros b Hb. unfold blocks, show_text in Hb. cbn [rp_blocks] in Hb. rewrite Hd in Hb.
-    apply show_blocks_in in Hb as [[k tm] [cl [Hin Hf]]]. cbn [fst snd] in Hf.
-    pose proof (show_func_key _ _ _ _ _ _ _ Hf) as Hk. subst k.
-    exists tm, cl. split; [eapply Permutation_in; [exact Hperm|exact Hin]|exact Hf].
+    apply filter_map_in in Hb as [[k tm] [Hin Hf]]. cbn [fst snd] in Hf.
+    pose proof (show_func_key _ _ _ _ _ _ Hf) as Hk. subst k.
+    exists tm. split; [eapply Permutation_in; [exact Hperm|exact Hin]|exact Hf].
 Qed.
 
 Lemma details_off F E o st : o_details o = false -> rp_blocks (show_text F E o st) = [].
@@ -479,9 +468,9 @@ Proof.
   - apply IH.
 Qed.
 
-Lemma show_func_rows F E strip cl fn start name tm b :
-  show_func F E strip cl (fn, start, name) tm = Some b ->
-  let sub := block_lines (E fn start) cl start tm in
+Lemma show_func_rows F E strip fn start name tm b :
+  show_func F E strip (fn, start, name) tm = Some b ->
+  let sub := block_lines (E fn start) start tm in
   b_rows b = map (fun p => mk_row (build_display F (total_time tm) tm) (fst p) (snd p))
                  (combine (zrange start (length sub)) sub).
 Proof.
@@ -491,9 +480,9 @@ Qed.
 
 (* row i of a block carries line start+i, the text of the i-th line of the source block,
    and the display entry of that line number (empty cells when nothing was recorded) *)
-Theorem row_i_is_line_start_plus_i F E strip cl fn start name tm b :
-  show_func F E strip cl (fn, start, name) tm = Some b ->
-  let sub := block_lines (E fn start) cl start tm in
+Theorem row_i_is_line_start_plus_i F E strip fn start name tm b :
+  show_func F E strip (fn, start, name) tm = Some b ->
+  let sub := block_lines (E fn start) start tm in
   length (b_rows b) = length sub
   /\ forall i r, nth_error (b_rows b) i = Some r ->
        r_lineno r = start + Z.of_nat i
@@ -501,7 +490,7 @@ Theorem row_i_is_line_start_plus_i F E strip cl fn start name tm b :
                         /\ r_text r = rstrip_char cr (rstrip_char nl line))
        /\ r_cells r = display_entry F (total_time tm) tm (start + Z.of_nat i).
 Proof.
-  intros H sub. rewrite (show_func_rows _ _ _ _ _ _ _ _ _ H). fold sub. split.
+  intros H sub. rewrite (show_func_rows _ _ _ _ _ _ _ _ H). fold sub. split.
   - rewrite map_length, combine_length, zrange_length. lia.
   - intros i r Hr. rewrite nth_error_map in Hr.
     destruct (nth_error (combine (zrange start (length sub)) sub) i) as [p|] eqn:Ep; [|discriminate].
@@ -516,10 +505,10 @@ Qed.
 (* unique line numbers (what C12 guarantees): every recorded line inside the block range is
    on exactly one row, its own, with its own numbers; a recorded line outside the range is on
    no row at all (silently dropped) *)
-Theorem every_line_once F E strip cl fn start name tm b :
-  show_func F E strip cl (fn, start, name) tm = Some b ->
+Theorem every_line_once F E strip fn start name tm b :
+  show_func F E strip (fn, start, name) tm = Some b ->
   NoDup (map t_line tm) ->
-  let n := Z.of_nat (length (block_lines (E fn start) cl start tm)) in
+  let n := Z.of_nat (length (block_lines (E fn start) start tm)) in
   forall t, In t tm ->
     (start <= t_line t < start + n ->
        exists i r, nth_error (b_rows b) i = Some r
@@ -530,7 +519,7 @@ Theorem every_line_once F E strip cl fn start name tm b :
     /\ (~ (start <= t_line t < start + n) -> forall r, In r (b_rows b) -> r_lineno r <> t_line t).
 Proof.
   intros H Hnd n t Hin.
-  destruct (row_i_is_line_start_plus_i _ _ _ _ _ _ _ _ _ H) as [Hlen Hrow]. cbn zeta in Hlen, Hrow.
+  destruct (row_i_is_line_start_plus_i _ _ _ _ _ _ _ _ H) as [Hlen Hrow]. cbn zeta in Hlen, Hrow.
   split.
   - intros Hrange. set (i := Z.to_nat (t_line t - start)).
     destruct (nth_error (b_rows b) i) as [r|] eqn:Er.
@@ -566,10 +555,10 @@ Proof.
     + apply IH. intros x [->|Hx]; apply H; [left; reflexivity|right; right; exact Hx].
 Qed.
 
-Theorem missing_file_covers_all_lines cl start tm :
+Theorem missing_file_covers_all_lines start tm :
   (forall t, In t tm -> start <= t_line t) ->
   forall t, In t tm ->
-    start <= t_line t < start + Z.of_nat (length (block_lines Missing cl start tm)).
+    start <= t_line t < start + Z.of_nat (length (block_lines Missing start tm)).
 Proof.
   intros Hge t Hin. split; [apply Hge; exact Hin|].
   unfold block_lines. rewrite repeat_length.
@@ -616,10 +605,29 @@ Proof.
   - intros H [Hc|Hc]; [discriminate|contradiction].
 Qed.
 
-(* ---- IPython cells: the source block is gone once linecache was cleared ---------------------- *)
-Theorem cell_after_clear_has_no_rows F E strip fn start name tm b sub :
-  E fn start = Cell sub ->
-  show_func F E strip true (fn, start, name) tm = Some b -> b_rows b = [].
+(* ---- IPython cells: shown wherever their block comes ----------------------------------------- *)
+(* A function defined in an IPython cell (source only in linecache.cache): wherever its block
+   stands in the report, it has one row per line of the cell's block, and every recorded line in
+   that range is on exactly one row with its own numbers.  (Until /repo 6c987c9 show_func called
+   linecache.clearcache() and a cell function printed after an on-disk function had no rows.) *)
+Theorem cell_rows_shown F E o (st : stats) b fn start name sub :
+  o_details o = true ->
+  In b (rp_blocks (show_text F E o st)) -> b_key b = (fn, start, name) -> E fn start = Cell sub ->
+  exists tm, In ((fn, start, name), tm) st
+    /\ length (b_rows b) = length sub
+    /\ (NoDup (map t_line tm) ->
+        forall t, In t tm -> start <= t_line t < start + Z.of_nat (length sub) ->
+          exists i r, nth_error (b_rows b) i = Some r /\ i = Z.to_nat (t_line t - start)
+                      /\ r_lineno r = t_line t /\ r_cells r = f_cells F (total_time tm) t
+                      /\ forall j r', nth_error (b_rows b) j = Some r' -> r_lineno r' = t_line t -> j = i).
 Proof.
-  intros HE H. rewrite (show_func_rows _ _ _ _ _ _ _ _ _ H). rewrite HE. reflexivity.
+  intros Hd Hb Hk HE. rewrite blocks_are_per_function in Hb by exact Hd.
+  apply filter_map_in in Hb as [[k tm] [Hin Hf]]. cbn [fst snd] in Hf.
+  pose proof (show_func_key _ _ _ _ _ _ Hf) as Hk'. rewrite Hk in Hk'. subst k.
+  exists tm. split; [eapply Permutation_in; [apply stats_order_perm|exact Hin]|].
+  destruct (row_i_is_line_start_plus_i _ _ _ _ _ _ _ _ Hf) as [Hlen _]. cbn zeta in Hlen.
+  rewrite HE in Hlen. cbn [block_lines] in Hlen. split; [exact Hlen|].
+  intros Hnd t Ht Hr.
+  pose proof (every_line_once _ _ _ _ _ _ _ _ Hf Hnd t Ht) as [Hin' _]. cbn zeta in Hin'.
+  rewrite HE in Hin'. cbn [block_lines] in Hin'. apply Hin'. exact Hr.
 Qed.
